@@ -191,7 +191,39 @@ func (c *Ctx) dsKeysOf(v ssa.Value) []string {
 		return []string{k}
 	}
 	call, ok := v.(*ssa.Call)
-	if !ok || calleeFull(call) != "github.com/ipfs/go-datastore.NewKey" || len(call.Call.Args) != 1 {
+	if !ok {
+		return nil
+	}
+	// the key may be built by a repo function shared by the writer and the reader
+	if h := call.Call.StaticCallee(); h != nil && h.Blocks != nil && h.Pkg != nil && inRepo(h.Pkg.Pkg) {
+		seen := map[string]bool{}
+		var out []string
+		okAll := true
+		eachInstr(h, func(in ssa.Instruction) {
+			r, isRet := in.(*ssa.Return)
+			if !isRet || len(r.Results) == 0 {
+				return
+			}
+			for _, rv := range resolveSpill(r.Results[0]) {
+				ks := c.dsKeysOf(rv)
+				if len(ks) == 0 {
+					okAll = false
+				}
+				for _, k := range ks {
+					if !seen[k] {
+						seen[k] = true
+						out = append(out, k)
+					}
+				}
+			}
+		})
+		if okAll && len(out) > 0 {
+			sort.Strings(out)
+			return out
+		}
+		return nil
+	}
+	if calleeFull(call) != "github.com/ipfs/go-datastore.NewKey" || len(call.Call.Args) != 1 {
 		return nil
 	}
 	a := call.Call.Args[0]
